@@ -20,7 +20,8 @@ deriving Repr, BEq
 structure DSess where
   up : Nat
   cp : Nat
-  node : String
+  node : String        -- node id of the owning node object
+  naddr : String       -- address that node associated from
   pdrs : List (Nat × List Nat)
   fars : List Nat
   qers : List Nat
@@ -56,7 +57,7 @@ def field (s : String) : String := match splitOn1 s '=' with
 def parseSess (s : String) : Option DSess :=
   match splitOn1 s ';' with
   | [up, cp, node, p, f, q, u, b, k] =>
-    some { up := hexD up, cp := hexD cp, node := node,
+    some { up := hexD up, cp := hexD cp, node := (splitOn1 node '@').headD "", naddr := ((splitOn1 node '@').drop 1).headD "",
            pdrs := (listOf (field p)).map fun t => match splitOn1 t '/' with
              | [i, us] => (natD i, if us == "" then [] else natList us '+')
              | i :: _ => (natD i, [])
@@ -174,7 +175,7 @@ def check (ps : PState) (evLine : String) (obs : List String) (fault : Option St
   let isDup := typ == "recv" && kind ∈ ["hb", "assoc", "est", "mod", "del", "other"] && prev.rx.contains s!"p{peer}-{seq}"
   -- takeover (Modification Request with a Node ID) re-keys the node of the addressed session, with all its sessions
   let takeover := typ == "recv" && kind == "mod" && lookD m "node" "-" != "-"
-  let norm (s : DSess) : DSess := if takeover then { s with node := "", raw := "" } else s
+  let norm (s : DSess) : DSess := if takeover then { s with node := "", naddr := "", raw := "" } else s
   let sessUnchanged (except : List Nat) : Bool :=
     (prev.sess.filter fun s => !except.contains s.up).all fun s => d.sess.any (norm · == norm s)
   let fails : List String := Id.run do
@@ -202,6 +203,21 @@ def check (ps : PState) (evLine : String) (obs : List String) (fault : Option St
       for (s, op, k, i, _) in dps do
         if s != seid then fs := fs ++ [s!"C05 {op} {k} {i} tagged with SEID {hexN s} while serving a report of SEID {hexN seid}"]
       if !sessUnchanged [seid] then fs := fs ++ [s!"C05 a session other than {hexN seid} changed while serving a report"]
+    -- C04 / C05: a session ends only by its own deletion, re-association of its node, or the SEID-0 answer to its report
+    let gone := prev.sess.filter fun s => (d.live s.up).isNone || ((d.live s.up).map (·.cp)) != some s.cp
+    let justified (s : DSess) : Bool :=
+      if typ == "recv" && kind == "del" then s.up == seid
+      else if typ == "recv" && kind == "assoc" then s.node == lookD m "node" "-"
+      else if typ == "recv" && kind == "srrsp" && seid == 0 then
+        match ps.outst.find? (·.1 == (peer, seq)) with
+        | some o => s.cp == o.2.2 && s.naddr == s!"p{peer}"
+        | none => false
+      else false
+    if !isDup then
+      for s in gone do
+        if !justified s then
+          fs := fs ++ [s!"C04 session {hexN s.up} ended although it was not deleted, its node did not re-associate and no SEID-0 response matched it",
+                       s!"C05 session {hexN s.up} (node {s.node}) was removed by an event addressed to something else"]
     -- C04 / C08: unknown SEID ⇒ 'context not found' (cause 65, SEID 0), no side effect
     if typ == "recv" && (kind == "mod" || kind == "del") && !isDup && (prev.live seid).isNone then
       let ok := match sends with
